@@ -107,12 +107,20 @@ def run(ctx):
     if cd:
         le = cd.call_sites('re:u64::to_le_bytes$', 'core::num::<impl u64>::to_le_bytes')
         ctx.ob('2b addresses-packed-le', 'K9-agreement', cd.path, 'child addresses are appended as u64 little-endian', len(le) == 1, '')
-    for fn in ('column::HashColumn::claim_tree_values', 'column::HashColumn::claim_node'):
-        b = F.body(fn)
-        if b:
-            push = [bi for bi, t in b.calls() if call_matches(t, ['re:Vec.*::push$']) and t['a'] and b.locals[op_local(t['a'][1])] == 'u8' if op_local(t['a'][1]) is not None]
+    # (the packing of a claimed node - data, child addresses, count byte - may be shared by the root and the inner nodes through a helper)
+    hosts = []
+    for fn, b in sorted(F.bodies.items()):
+        if fn.startswith('column::HashColumn::') and '{closure' not in fn:
+            push = [bi for bi, t in b.calls() if bi in b.normal_blocks() and call_matches(t, ['re:Vec.*::push$']) and len(t['a']) > 1 and op_local(t['a'][1]) is not None and b.locals[op_local(t['a'][1])] == 'u8']
             cc2 = b.call_sites('column::HashColumn::claim_children_to_data')
-            lib.precedes(ctx, '2c count-byte-last %s' % fn, b, cc2, push, 'the child-count byte is appended after the child addresses (the unpackers read it from the end)')
+            if push and cc2:
+                hosts.append(fn)
+                lib.precedes(ctx, '2c count-byte-last %s' % fn, b, cc2, push, 'the child-count byte is appended after the child addresses (the unpackers read it from the end)')
+    for fn in ('column::HashColumn::claim_tree_values', 'column::HashColumn::claim_node'):
+        if F.body(fn) and fn not in hosts:
+            reach = set(F.transitive_callees([fn]))
+            ctx.ob('2c count-byte-last %s' % fn, 'K2-order', fn, 'the child-count byte is appended after the child addresses (the unpackers read it from the end) - in the helper that packs the node',
+                   bool(set(hosts) & reach), 'no packing site (child addresses, then the count byte) is reached from %s' % fn)
     # 3/4. dereference walk
     wd = ctx.body('db::IndexedChangeSet::write_dereference_children_plan')
     if wd:
